@@ -185,8 +185,35 @@ def check(case):
 
 # ------------------------------------------------------------------ thorough: ThreadSanitizer + Archer
 
-def extra(tier, seed, stats):
+def sweep_leg(tier, seed, stats):
+    """thresholds of the parallel regions, enumerated: 90..110 sequences (k-means switch) and 2-sequence inputs of
+    490..519 columns (serial / parallel Hirschberg switch); 4 threads with nested teams against 1 thread"""
+    from concurrent.futures import ThreadPoolExecutor
+    from vlib import sweeps
+    cases_ = []
+    for n in range(90, 111):
+        cases_.append({"seqs": sweeps.family(n, 25, "dna" if n % 2 else "protein", salt=seed), "cfg": {"type": 5, "gpo": -1.0, "gpe": -1.0, "tgpe": -1.0},
+                       "region": "sweep_n", "entry": "file",
+                       "runs": [{"threads": 4, "env": {"OMP_MAX_ACTIVE_LEVELS": "2"}, "delays": [], "variant": "plain"},
+                                {"threads": 3, "env": {}, "delays": [[1, 2, 0, 2, 10]], "variant": "plain"}]})
+    for L in list(range(490, 520)) + ([1000, 1024, 1025] if tier == "quick" else list(range(990, 1040))):
+        cases_.append({"seqs": sweeps.family(3, L, "dna" if L % 2 else "protein", salt=seed, indel=0.01), "cfg": {"type": 5, "gpo": -1.0, "gpe": -1.0, "tgpe": -1.0},
+                       "region": "sweep_len", "entry": "file",
+                       "runs": [{"threads": 4, "env": {"OMP_MAX_ACTIVE_LEVELS": "2"}, "delays": [[5, 1, 0, 3, 5]], "variant": "plain"},
+                                {"threads": 2, "env": {"OMP_MAX_ACTIVE_LEVELS": "3"}, "delays": [[3, 1, 0, 2, 20]], "variant": "plain"}]})
+    with ThreadPoolExecutor(max_workers=6) as ex:
+        res = list(ex.map(check, cases_))
     out = []
+    for c, r in zip(cases_, res):
+        stats.record(c, r)
+        if r["status"] == "violation":
+            out.append({"case": c, "detail": r["detail"], "kind": r.get("kind")})
+    stats.extra["sweep"] = "90..110 sequences and 490..519-column inputs enumerated (4/3/2 threads, nested teams, delays) against the 1-thread run"
+    return out
+
+
+def extra(tier, seed, stats):
+    out = sweep_leg(tier, seed, stats)
     rnd = random.Random(seed)
     archer = "/usr/lib/llvm-14/lib/libarcher.so"
     env = {"OMP_MAX_ACTIVE_LEVELS": "2", "OMP_WAIT_POLICY": "passive"}
